@@ -126,6 +126,9 @@ class Worker(threading.Thread):
         if event == "line":
             key = (frame.f_code.co_name, frame.f_lineno)
             if key in self.sched.lines:
+                # which socket the hub call is about is part of where the thread is (a thread with several sockets)
+                sock = frame.f_locals.get("socket")
+                self.ctx = list(getattr(sock, "key", ())) if sock is not None else []
                 self.park(key)
         return self._local
 
@@ -215,7 +218,7 @@ class Sched:
         w = self.workers[tid]
         if w.done:
             return ["done", 0, ""]
-        return [w.at[0], w.at[1], self.lines.get(w.at, "")] if w.at else ["?", 0, ""]
+        return [w.at[0], w.at[1], self.lines.get(w.at, ""), getattr(w, "ctx", [])] if w.at else ["?", 0, ""]
 
     def shutdown(self):
         for w in self.workers.values():
@@ -261,11 +264,34 @@ def make_body(sched: Sched, tid: int, ep: Dict[str, Any]):
                     cls = CbSocket if ep["cb"] else ts_socket.ThreadSocket
                     if ep["cb"]:
                         CbSocket.sink = staticmethod(sink)
+                    if ep["cb"] == "answer":
+                        # the ping-pong pattern: the callback (running in the SENDER's thread) answers through its own socket;
+                        # that nested send is logged as a call of pseudo-thread tid + 2, which owns the same endpoint key
+                        class AnswerSocket(CbSocket):
+                            def recv_callback(self_, msg):
+                                sink("cb", self_.key, msg)
+                                sched.log(t=tid + 2, ev="call", op="send", arg="re:" + msg, n=0)
+                                r_ = "ok"
+                                try:
+                                    self_.send("re:" + msg)
+                                except ConnectionError:
+                                    r_ = "<connerr>"
+                                sched.log(t=tid + 2, ev="ret", op="send", res=r_, n=0)
+                        cls = AnswerSocket
                     if not sched.use_global:
                         ts_socket.ThreadSocket._SOCKET_HUB = sched.hub
-                    sock = cls(ep["name"], ep["remote"], socket_id=ep["id"], use_callbacks=ep["cb"])
+                    sock = cls(ep["name"], ep["remote"], socket_id=ep["id"], use_callbacks=bool(ep["cb"]))
                     if not sched.use_global:
                         sock._SOCKET_HUB = sched.hub
+                elif op == "bconnect":
+                    # a broadcast channel: one socket per listed remote behind a single receive
+                    from netqasm.sdk.classical_communication.thread_socket.broadcast_channel import ThreadBroadcastChannel
+                    if not sched.use_global:
+                        ts_socket.ThreadSocket._SOCKET_HUB = sched.hub
+                    sock = ThreadBroadcastChannel(ep["name"], list(ep["remotes"]), socket_id=ep["id"])
+                elif op == "brecv":
+                    remote, msg = sock.recv(block=True)
+                    res = f"{list(ep['remotes']).index(remote) + 1}:{msg}"
                 elif op == "send":
                     sock.send(arg)
                 elif op == "recv":
